@@ -1,0 +1,3 @@
+// Package verifshim re-exports internal helpers for external conformance
+// harnesses. It is empty unless built with the "verif" build tag.
+package verifshim
